@@ -180,7 +180,7 @@ package gogen
 //@ loop 0 invariant 0 <= i
 
 //@ func (*CodeBuilder).startFuncBody
-//@ prop C16
+//@ prop C16 C09
 //@ requires fn != nil && fn.Func != nil && old != nil && addr(old.codeBlockCtx) != addr(p.current.codeBlockCtx) && old != addr(p.current)
 //@ requires imp(src != nil, len(src) >= 1 && src[0] != nil)
 //@ requires typeis(fn.Type(), *types.Signature) && fn.Type().(*types.Signature).Params() != nil && fn.Type().(*types.Signature).Results() != nil
@@ -191,6 +191,7 @@ package gogen
 //@ ensures p.current.codeBlock == asI(fn, codeBlock) && p.current.base == old(len(p.stk.data)) && p.current.stmts == nil && p.current.label == nil && p.current.flows == 0
 //@ ensures p.current.scope != nil && p.current.scope.Parent() == old(p.current.scope)
 //@ ensures result == p
+//@ ensures[C09] forall(i, 0, fn.Type().(*types.Signature).Params().Len(), imp(fn.Type().(*types.Signature).Params().At(i).Name() != "" && fn.Type().(*types.Signature).Params().At(i).Name() != "_", in(p.pkg.names, fn.Type().(*types.Signature).Params().At(i).Name())))
 
 //@ func (*funcBodyCtx).checkLabels
 //@ prop C10
@@ -888,3 +889,44 @@ package gogen
 //@ requires off >= 0 && forall(i, 0, len(items), items[i] != nil && off < len(items[i].Obj().Name()))
 //@ loop 0 invariant len(nameds) == len(items) && fresh(nameds) && forall(k, 0, rangeidx + 1, 0 <= toIndex(items[k].Obj().Name()[off]) && toIndex(items[k].Obj().Name()[off]) < len(items) && nameds[toIndex(items[k].Obj().Name()[off])] == items[k])
 //@ ensures len(result) == len(items) && forall(k, 0, len(items), 0 <= toIndex(items[k].Obj().Name()[off]) && toIndex(items[k].Obj().Name()[off]) < len(items) && result[toIndex(items[k].Obj().Name()[off])] == items[k])
+
+// ---------------------------------------------------------------------------
+// C09 — name tables
+
+//@ func (*autoNames).useName
+//@ prop C09
+//@ requires p.names != nil
+//@ assigns map(p.names)
+//@ ensures in(p.names, name) && sforall(k, imp(k != name, in(p.names, k) == old(in(p.names, k))))
+
+//@ func (*autoNames).hasName
+//@ prop C09
+//@ readonly
+//@ ensures result == in(p.names, name)
+
+//@ func (*autoNames).useImportName
+//@ prop C09
+//@ requires p.importNames != nil
+//@ assigns map(p.importNames)
+//@ ensures in(p.importNames, mkstruct(importName, name, file))
+
+//@ func (*autoNames).hasImportName
+//@ prop C09
+//@ readonly
+//@ ensures result == in(p.importNames, mkstruct(importName, name, file))
+
+// generated helper names: fresh with respect to earlier generated names; the package name table is NOT consulted
+//@ func (*autoNames).autoName
+//@ prop C09
+//@ assigns p.autoIdx
+//@ ensures p.autoIdx == old(p.autoIdx) + 1 && result == goxAutoPrefix + strconv.Itoa(p.autoIdx)
+//@ ensures !in(p.names, result)
+
+// import naming: the chosen name is not a declared name and not another import's name in the same file
+//@ func (*autoNames).importName
+//@ prop C09
+//@ requires p.importNames != nil
+//@ assigns map(p.importNames)
+//@ loop 0 invariant idx >= 0 && ret == ite(idx == 0, name, name + strconv.Itoa(idx)) && renamed == (idx > 0)
+//@ ensures !in(p.names, result0) && !old(in(p.importNames, mkstruct(importName, result0, file))) && in(p.importNames, mkstruct(importName, result0, file))
+//@ ensures result1 == (result0 != name)
